@@ -344,6 +344,17 @@ pub fn orchestrate(args: &Args) -> i32 {
             return 2;
         }
     };
+    if spec.engine == "sysim" || matches!(spec.id, "C01" | "C14" | "C16" | "C18") {
+        // seam self-test before anything is believed: a failure is a harness error, never a violation
+        match sysim::selftest(&args.workers, &scratch_base().join("selftest")) {
+            Ok(_) => {}
+            Err(e) => {
+                eprintln!("HARNESS-ERROR: ptrace seam self-test failed: {e}");
+                let _ = std::fs::remove_dir_all(scratch_base());
+                return 2;
+            }
+        }
+    }
     let total = total_runs(&spec, args);
     let lanes = args.lanes.min(total.max(1));
     let outdir = scratch_base().join("lanes");
@@ -593,7 +604,8 @@ fn expected_probes(id: &str) -> &'static [&'static str] {
         "C09" => &["reader_saw_missing_content"],
         "C10" => &["listing_multi"],
         "C14" => &["abandoned_with_data", "pending_then_drop", "commit_rejected"],
-        "C17" => &["reference_writer_record"],
+        "C17" => &["reference_writer_record", "python_crosscheck_done"],
+        "C16" => &["python_crosscheck_done"],
         "C18" => &["damaged_content_extracted"],
         "C19" => &["symlink_created"],
         "C20" => &["hostile_step"],
